@@ -8,6 +8,41 @@ COMMON = ["the harness module replaces github.com/openconfig/gnmi with /repo's w
           "rapid v1.3.0 generators; every random choice is a function of VERIF_SEED"]
 
 CHECKS = {
+    "C11": dict(
+        engine="coalesceprop",
+        technique=("exhaustive small-scope enumeration against a sequential queue model + gate-scheduled many-producers/one-consumer "
+                   "scenarios (rapid) in synctest bubbles, decided by an interval (linearizability-style) checker and per-clause history oracles"),
+        level_text=("Every sequence of <=7 calls over {Insert(a),Insert(b),Insert(c),Next,Len,Close} from one goroutine (335,922 sequences) is compared "
+                    "call by call with a FIFO-of-distinct-items + duplicate-counter + closed-flag model (return values of Insert, Next, Len, IsClosed; "
+                    "a call that blocks is detected as a bubble deadlock, not by a timeout). Concurrency: thousands of generated schedules with 1-6 producers "
+                    "and one consumer, executed one step at a time to quiescence (synctest.Wait) with producers parked between the closed check and the "
+                    "insertion and the consumer parked between the emptiness check and the blocking select, plus Close and context cancellation at generated "
+                    "steps. Each recorded history must be explainable by the model with every call taking effect inside its invocation interval; conservation, "
+                    "drain-before-closed, refusal after close and no-stuck-consumer (blocked in Next at quiescence with Len()>0, after Close, or after cancel) "
+                    "are additionally checked directly on the history. Bounded exploration: exhaustive only inside the stated small scope, sampled schedules beyond it."),
+        level_note=("trusts the 60-line queue model, the interval checker (cross-checked against the direct per-clause oracles on every case) and the placement of the two "
+                    "schedule points in coalesce.go; the window a goroutine can be parked in is exactly the two named points, other preemption points inside Insert/Next "
+                    "(between the locked insert and the token send) are not scheduled; one consumer only, as the property states; which ready case a select takes is chosen "
+                    "by the Go runtime, so schedules in which several wake-up sources are ready at once are sampled, not enumerated (replays and shrink candidates are run repeatedly)"),
+        rule=("cases are (exhaustive) all call sequences of length <=7 over a 6-call alphabet on a fresh queue from one goroutine, and (concurrent) generated "
+              "scenarios = item sequences for 1-6 producers over <=3 items + a schedule of 1-48 step tokens {producer inserts next item (optionally parking at "
+              "coalesce.insert.checked), release a parked producer, consumer starts Next (optionally parking at coalesce.next.empty), release consumer, Close, cancel "
+              "consumer context} + a fixed epilogue that releases everything, closes and drains until the consumer is told 'closed' (optionally draining before the "
+              "parked producers are released). non-trivial = some Insert of an item that was still pending was accepted (fresh=false) AND the scenario's own Close "
+              "was performed while Len()>0; distinct = distinct hash of the call sequence / scenario"),
+        assumptions=COMMON + [
+            SYNCTEST_ASSUMPTION,
+            "one consumer goroutine at a time (sequential Next calls, possibly with different contexts), any number of producers: the way subscribe.go uses the queue",
+            "items are small ints (comparable, usable as map keys, as Insert requires)",
+            "the choice among several ready cases of the select inside Next is made by the Go runtime and is not a function of VERIF_SEED; oracles accept every outcome the property allows, "
+            "label/non-trivial counts of the concurrent part can therefore differ by a few cases between runs with the same seed",
+            "an Insert that passed the closed check before Close() and completes after it did not 'complete before the queue was closed': it may be delivered, coalesced or never delivered; only a consumer that hangs is a violation there",
+        ],
+        parts=[
+            dict(name="exhaustive", run="TestC11Exhaustive", rapid=False),
+            dict(name="concurrent", run="TestC11Concurrent", checks=dict(quick=5000, thorough=40000), shards=dict(quick=1, thorough=16)),
+        ],
+    ),
     "C20": dict(
         engine="fakeprop",
         technique=("property-based testing (rapid) of generated fake-target configurations: trace predicates over the emitted stream "
